@@ -179,24 +179,26 @@ def process_nodes_recursive(
                                 # 2. If it's a var(), update the definition.
 
                                 if "var(" in raw_text_color:
-                                    # Extract var name
+                                    # Extract var name (a fallback may follow it:
+                                    # var(--name, fallback))
                                     import re
 
                                     var_match = re.search(
-                                        r"var\((--[\w-]+)\)", raw_text_color
+                                        r"var\(\s*(--[\w-]+)", raw_text_color
                                     )
-                                    if var_match:
-                                        var_name = var_match.group(1)
-                                        if var_name in variables:
-                                            # Update the variable definition
-                                            var_def = variables[var_name]
-                                            update_decl_value(
-                                                var_def["decl"], tuned_rgb
-                                            )
-                                            # Update our local map so future usages see the new value
-                                            var_def["value"] = tuned_rgb
+                                    var_name = var_match.group(1) if var_match else None
+                                    if var_name in variables:
+                                        # Update the variable definition
+                                        var_def = variables[var_name]
+                                        update_decl_value(var_def["decl"], tuned_rgb)
+                                        # Update our local map so future usages see the new value
+                                        var_def["value"] = tuned_rgb
                                     else:
-                                        pass  # Could not extract var name
+                                        # The colour came from the fallback (or the
+                                        # variable is defined elsewhere): write the
+                                        # tuned colour on the declaration itself
+                                        update_decl_value(color_decl, tuned_rgb)
+                                        modified = True
                                 else:
                                     update_decl_value(color_decl, tuned_rgb)
                                     modified = True
